@@ -1023,6 +1023,126 @@ def judge_C13_real(w):
     return None
 
 
+# ------------------------------------------------------------------------------------------------ C11 (P1 parse / decode)
+def p1_reference_parse(text):
+    """IEC 62056-21 data block -> [(address, [(value, unit|None), ...]), ...]  (independent of han.dlde)"""
+    out = []
+    for line in text.replace("\r\n", "\n").split("\n"):
+        if not line.strip():
+            continue
+        pos = 0
+        while pos < len(line):
+            op = line.find("(", pos)
+            if op <= pos:
+                break
+            address = line[pos:op]
+            values = []
+            pos = op
+            while pos < len(line) and line[pos] == "(":
+                cl = line.find(")", pos)
+                if cl < 0:
+                    raise ValueError("unbalanced")
+                body = line[pos + 1:cl]
+                v, _, u = body.partition("*")
+                values.append((v, u if "*" in body else None))
+                pos = cl + 1
+            out.append((address, values))
+    return out
+
+
+def p1_reference_decode(sets):
+    import datetime, re
+    from fractions import Fraction
+    from . import cosem_ref as CR
+    exp = {}
+    for address, values in sets:
+        if len(values) != 1:
+            continue
+        m = re.fullmatch(r"(?:(\d+)-)?(?:(\d+):)?(\d+)\.(\d+)(?:\.(\d+))?(?:\*(\d+))?", address)
+        if not m:
+            raise ValueError("address")
+        cde = f"{int(m.group(3))}.{int(m.group(4))}.{int(m.group(5)) if m.group(5) is not None else None}"
+        name = CR.NAMES.get(cde, cde)
+        v, u = values[0]
+        ul = u.lower() if u else None
+        if ul in ("kw", "kwh", "kvar", "kvarh"):
+            exp[name] = ("milli", Fraction(v) * 1000)
+        elif ul in ("v", "a", "var", "varh"):
+            exp[name] = ("float", Fraction(v))
+        elif cde == "1.0.0":
+            exp[name] = ("clock", datetime.datetime(2000 + int(v[0:2]), int(v[2:4]), int(v[4:6]), int(v[6:8]), int(v[8:10]), int(v[10:12])))
+        else:
+            exp[name] = ("text", v)
+    return exp
+
+
+def c11_compare(exp, got):
+    if not isinstance(got, dict) or set(got) != set(exp):
+        return ("field-names-differ", f"decoded keys {sorted(got) if isinstance(got, dict) else got!r}, expected {sorted(exp)}")
+    for name, (k, e) in exp.items():
+        g = got[name]
+        if k == "milli":
+            ok = isinstance(g, int) and e - 1 <= g <= e
+        elif k == "float":
+            ok = isinstance(g, float) and g == float(e)
+        else:
+            ok = g == e
+        if not ok:
+            return (f"value-differs:{k}", f"{name}: decoded {g!r}, transmitted {e!r}")
+    return None
+
+
+def c11_run(w):
+    from han import dlde, autodecoder
+    content = bytes.fromhex(w["content"])
+    res = {"parsed": [(d.address, [(v.value, v.unit) for v in d.values]) for d in dlde.parse_p1_readout_content(content)],
+           "content": dlde.decode_p1_readout_content(content),
+           "auto_payload": autodecoder.AutoDecoder().decode_message_payload(content)}
+    if w.get("ident"):
+        raw = bytes.fromhex(w["ident"]) + b"\r\n" + content + b"!\r\n"
+        ro = dlde.DataReadout(raw)
+        res["readout"] = dlde.decode_p1_readout(ro)
+        res["auto_message"] = autodecoder.AutoDecoder().decode_message(ro)
+    return res
+
+
+def observe_C11(w):
+    try:
+        r = c11_run(w)
+    except Exception as e:
+        return "exc:" + type(e).__name__
+    return [[a, [[v, u] for v, u in vs]] for a, vs in r["parsed"]]
+
+
+def judge_C11(w):
+    try:
+        r = c11_run(w)
+    except Exception as e:
+        return {"signature": "exception:" + exc_signature(e), "detail": f"{type(e).__name__}: {e}; content={bytes.fromhex(w['content'])!r}"}
+    text = bytes.fromhex(w["content"]).decode("ascii")
+    ref_sets = p1_reference_parse(text)
+    if [(a, vs) for a, vs in r["parsed"]] != ref_sets:
+        return {"signature": "parsed-data-sets-differ", "detail": f"parsed {r['parsed']} expected {ref_sets}; content={text!r}"}
+    exp = p1_reference_decode(ref_sets)
+    c = c11_compare(exp, r["content"])
+    if c:
+        return {"signature": c[0], "detail": f"decode_p1_readout_content: {c[1]}; content={text!r}"}
+    if r["auto_payload"] != r["content"]:
+        return {"signature": "entry-points-disagree", "detail": f"AutoDecoder.decode_message_payload {r['auto_payload']} vs decode_p1_readout_content {r['content']}"}
+    if "readout" in r:
+        ident = bytes.fromhex(w["ident"]).decode("ascii")
+        extra = dict(r["readout"])
+        man, typ = extra.pop("meter_manufacturer_id", None), extra.pop("meter_type_id", None)
+        if extra != r["content"] or r["auto_message"] != r["readout"]:
+            return {"signature": "entry-points-disagree", "detail": f"decode_p1_readout {r['readout']} / AutoDecoder.decode_message {r['auto_message']} vs content {r['content']}"}
+        rest = ident[5:]
+        while len(rest) >= 2 and rest[0] == "\\" and (rest[1].isalnum() or rest[1] == "_") and len(rest) > 16:
+            rest = rest[2:]
+        if man != ident[1:4]:
+            return {"signature": "manufacturer-id-differs", "detail": f"ident {ident!r}: manufacturer id {man!r}"}
+    return None
+
+
 # ------------------------------------------------------------------------------------------------ dispatch
 def observe(prop, w):
     fn = globals().get("observe_" + prop + ("_" + w["sub"] if w.get("sub") else ""))
